@@ -174,6 +174,19 @@ theorem quote_untouched (w : Bool) (args : List Sx) :
     optimize (.list w (.op .QUASIQUOTE :: args)) = .list w (.op .QUASIQUOTE :: args) := by
   constructor <;> simp [optimize]
 
+/-- **the key of a case clause is data: the pass leaves it exactly as written** (it is compared with the value of
+the key form as it stands and never evaluated; only the key form and the consequents are optimised) -/
+theorem case_key_untouched (kf k : Sx) (body rest : List Sx) :
+    optimize (.list true (.op .CASE :: kf :: .list true (k :: body) :: rest)) =
+      .list true (.op .CASE :: optimize kf :: .list true (k :: optList body) :: optClauses rest) := by
+  simp [optimize, optClauses]
+
+/-- the repaired case: the clause key `(+ 1 2)` stays a list, so the number 3 does not match it -/
+example : optimize (.list true [.op .CASE, .int 3, .list true [.list true [.op .ADD, .int 1, .int 2], .str "yes"],
+      .list true [.sym "default" Option.none, .list true [.op .ADD, .int 1, .int 2]]]) =
+    .list true [.op .CASE, .int 3, .list true [.list true [.op .ADD, .int 1, .int 2], .str "yes"],
+      .list true [.sym "default" Option.none, .int 3]] := by rfl
+
 /-- atoms are never rewritten -/
 theorem atom_untouched (e : Sx) (h : isList e = false) : optimize e = e := by
   cases e <;> simp [isList] at h <;> simp [optimize]
